@@ -68,3 +68,22 @@ Example C19_nonvacuous :
   let b := mkFrag 1 (s "c") 10 12 (-1) [] in
   wf a /\ wf b /\ same_name a b /\ overlaps a b = true /\ overlap_length a b = Some 1.
 Proof. vm_compute. repeat split; discriminate. Qed.
+
+(* THE REPORT of asm-format --qc-overlaps (Model/AsmFormat.v, compared with the
+   real command's STDERR byte for byte): silent exactly when the scan finds no
+   pair; otherwise the header line and ONE block "\nOverlap:\n..." per pair of
+   the scan (C19_scan_spec / C19_scan_once: each unordered overlapping pair
+   once), in scan order -- blocks with identical text are not merged. *)
+From Tola Require Import Model.AgpTpf Model.AsmFormat.
+From Tola Require Proofs.AsmFormat.
+Theorem C19_report_blocks : forall in_fmt nm text out_fmt t rep,
+  process_fh in_fmt nm text out_fmt true = Ok (t, rep) ->
+  exists a, Proofs.AsmFormat.parse_as in_fmt text = Ok a
+    /\ let pairs := scan_pairs (flat_frags (map snd (a_scaffolds a))) in
+       (pairs = [] /\ rep = [])
+       \/ (pairs <> []
+           /\ exists blocks, rep = Proofs.AsmFormat.report_header nm ++ concat blocks
+                /\ length blocks = length pairs
+                /\ Forall (fun b => exists rest, b = Proofs.AsmFormat.block_head ++ rest) blocks).
+Proof. exact Proofs.AsmFormat.qc_report_blocks. Qed.
+Print Assumptions C19_report_blocks.
